@@ -8,7 +8,7 @@ package mresults
 //
 //verif:pkg pkg/segment/results/mresults
 //verif:entry VerifC09DownsampleAggregate conf=0
-//verif:bound one series of 1..2 (quick) / 1..3 (thorough) datapoints with free uint32 timestamps and integer-valued float values (|v| <= 2^20, so sums are exact), downsample interval 1 s or 60 s, aggregator sum/min/max/avg; the datapoints arrive in one Series or split at any point into two Series joined by Merge
+//verif:bound one series of 1..2 datapoints with free uint32 timestamps and integer-valued float values (|v| <= 2^20, so sums are exact), downsample interval 1 s or 60 s (thorough: also 3600 s, and min <= avg <= max), aggregator sum/min/max/avg; the datapoints arrive in one Series or split at any point into two Series joined by Merge
 //verif:outside PromQL parsing and planning, label matchers (tags-tree reader, regex), by/without grouping over series-id strings, vector-matching binary operators, quantile/topk/stddev, range functions, cross-series avg weighting
 //verif:assume float values are integers of magnitude <= 2^20 (addition exact, so sum/avg do not depend on order); min <= avg <= max is asserted only under this assumption and only in the thorough tier (FP division queries)
 
@@ -29,12 +29,14 @@ func verifC09Series(ds uint32, fn sutils.AggregateFunctions) *Series {
 }
 
 func VerifC09DownsampleAggregate() {
-	maxN := 2
+	// three free points were tried for the thorough tier: the float-sum obligations (order of summation after
+	// Merge vs. the specification's order) did not finish in any back end within the 7000 s budget
+	n := 1 + zz.Choice("n", 2)
+	dsChoices := []uint32{1, 60}
 	if zz.Tier() > 0 {
-		maxN = 3
+		dsChoices = []uint32{1, 60, 3600}
 	}
-	n := 1 + zz.Choice("n", maxN)
-	ds := []uint32{1, 60}[zz.Choice("ds", 2)]
+	ds := dsChoices[zz.Choice("ds", len(dsChoices))]
 	fn := []sutils.AggregateFunctions{sutils.Sum, sutils.Min, sutils.Max, sutils.Avg}[zz.Choice("agg", 4)]
 	ts := make([]uint32, n)
 	vs := make([]float64, n)
